@@ -61,6 +61,16 @@ type ShAllOpt struct {
 	B *string `cbor:"2,keyasint,omitempty" json:"b,omitempty"`
 }
 
+// ShTagOrder: the same options written in other orders (the key is always the first element of the tag;
+// omitempty counts wherever it stands among the options).
+type ShTagOrder struct {
+	A *int64  `cbor:"1,omitempty" json:"a,omitempty"`
+	B *string `cbor:"2,omitempty,keyasint" json:"b,omitempty"`
+	C *[]byte `cbor:"3,keyasint,omitempty" json:"c,omitempty"`
+	D *int64  `cbor:"4" json:"d"`
+	ShInner2
+}
+
 // fieldRef: one settable pointer field reachable through embedding, in serialisation order
 type fieldRef struct {
 	v    reflect.Value
@@ -127,6 +137,7 @@ func shapeInstances() []func() interface{} {
 		func() interface{} { return &ShIface{} },
 		func() interface{} { return &ShAllOpt{} },
 		func() interface{} { return &ShInner{} },
+		func() interface{} { return &ShTagOrder{} },
 	}
 }
 
